@@ -65,6 +65,7 @@ type Program struct {
 	crossCheck       map[string]interface{}
 	returnCovers     bool
 	returnCoverStats map[string]interface{}
+	twinStats        map[string]interface{}
 	conformanceNote  string
 	quickAudits      []map[string]interface{}
 	groundDone       bool
